@@ -10,7 +10,7 @@ Rec == ndJsonDeserialize(IOEnv.TRACE)
 VARIABLES i, prev, dead, bad, st
 vars == <<i, prev, dead, bad, st>>
 St0 == [recs |-> 0, hists |-> 0, counts |-> 0, floats |-> 0, negs |-> 0, nonfinite |-> 0, prec0 |-> 0, grouped |-> 0,
-        bytes |-> 0, slack |-> 0, fdur |-> 0, days |-> 0, hdur |-> 0, mono |-> 0, switches |-> 0, forced2 |-> 0]
+        bytes |-> 0, slack |-> 0, failed_writes |-> 0, fdur |-> 0, days |-> 0, hdur |-> 0, mono |-> 0, switches |-> 0, forced2 |-> 0]
 NoPrev == [has |-> FALSE, alt |-> FALSE, D |-> <<0>>, j |-> 6, c |-> <<0>>]
 
 DurOf(r) == DurNs(r.secs, r.nanos)
@@ -18,6 +18,9 @@ CurOf(r) == LET p == HDParse(r.out, r.op = "hda") IN [has |-> TRUE, alt |-> r.op
 
 Rule(r, pv) ==
     IF r.panic # "" THEN "NoPanic"
+    (* a writer that fails part-way makes the call return an error (no panic), and the value renders the same afterwards: the output is a function of the value *)
+    ELSE IF r.partial \notin {"ok", "err"} THEN "NoPanic"
+    ELSE IF r.again # r.out THEN "Repeatable"
     ELSE CASE r.op = "hc" -> IF r.out = HumanCount(r.n) THEN "" ELSE "HumanCountOK"
            [] r.op = "hf" -> IF ~StdShape(r.std) THEN "InputFact" ELSE IF r.out = HumanFloat(r.std) THEN "" ELSE "HumanFloatOK"
            [] r.op = "fd" -> IF r.out = FormattedDur(r.secs) THEN "" ELSE "FormattedDurationOK"
@@ -47,6 +50,7 @@ Count(r, pv) ==
                   !.nonfinite = @ + (IF r.op = "hf" /\ ~HasDigit(r.std) THEN 1 ELSE 0),
                   !.prec0 = @ + (IF r.op = "hf" /\ r.p = 0 THEN 1 ELSE 0),
                   !.bytes = @ + (IF isB THEN 1 ELSE 0),
+                  !.failed_writes = @ + (IF r.partial = "err" THEN 1 ELSE 0),
                   !.slack = @ + (IF isB /\ ~IsZero(Slack(r.n)) THEN 1 ELSE 0),
                   !.fdur = @ + (IF r.op = "fd" THEN 1 ELSE 0),
                   !.days = @ + (IF r.op = "fd" /\ r.panic = "" /\ (\E j \in 1..Len(r.out) : r.out[j] = 100) THEN 1 ELSE 0),
